@@ -171,7 +171,8 @@ def gen_globals(rng, defines=None):
     if rng.random() < 0.25:
         for _ in range(rng.randint(1, 2)):
             name = rng.choice(["x", "k0", "k1", "lbl0", "foo", "val", "val.b", "K1", "start", "_", "entry", "entry", "x", "val"])
-            val = rng.choice(["", "", "=5", "=0x10", "=-3", "=true", "=false", "=", "=-", "=abc", "=1=2", "=0b101", "=%11", "=$ff", "=66", "=0x42", "=-0xff", "=-0x81", "=-0b11", "=-0x7f", "=0xff", "=0x1ff"])
+            val = rng.choice(["", "", "=5", "=0x10", "=-3", "=true", "=false", "=", "=-", "=abc", "=1=2", "=0b101", "=%11", "=$ff", "=66", "=0x42", "=-0xff", "=-0x81", "=-0b11", "=-0x7f", "=0xff", "=0x1ff",
+                              "=0x", "=0b", "=0o", "=0x_", "=$", "=%", "=_", "=-0x", "=0x__1", "=1_0"])
             args.append(rng.choice(["-d", "--define="]) + name + val)
             model["defines"].append((name, val))
     return args, model
